@@ -19,7 +19,7 @@ INFO = {
                   "lax.conv_general_dilated (native rule, cross-validated per use)"],
     "bounds": {
         "quick": "d=2 shapes (4,4),(3,5),(5,2); d=3 shapes (3,3,3),(2,3,4) [(2,2,3)]; batch<=2; in/out channels<=2 (unequal); k+k'<=3 (d=2), <=2 (d=3); "
-                 "padding kinds TORUS/None/SAME/VALID/int/explicit(asymmetric); torus flag vectors incl. mixed; stride 1,2,(1,2); "
+                 "padding kinds TORUS/None/SAME/VALID/int (0, 1, 2)/explicit(asymmetric, all-zero); torus flag vectors incl. mixed; stride 1,2,(1,2); "
                  "rhs_dilation 1,2 (+ 8 cells whose TORUS halo exceeds the image side: dilations 3..7 on sides 2..4); lhs_dilation off/2; filter sides 3,2,1,(3,1),(2,3): pairwise-covering core + seeded sample (~90 cells)",
         "thorough": "same axes, core + 1200 seeded cells; all 2^d torus-flag vectors",
     },
@@ -28,7 +28,7 @@ INFO = {
                     "zero-pad also on toroidal axes, as documented"],
 }
 
-PADS = ["none", "TORUS", "SAME", "VALID", "int", "explicit"]
+PADS = ["none", "TORUS", "SAME", "VALID", "int", "explicit", "int0", "int2", "explicit0"]
 
 
 def _mk_cells(D, tier, seed):
@@ -95,6 +95,10 @@ def _padding_arg(c):
         return pad
     if pad == "int":
         return 1
+    if pad in ("int0", "int2"):          # integer paddings incl. the falsy 0 (= no padding at all)
+        return int(pad[3:])
+    if pad == "explicit0":
+        return ((0, 0),) * D
     return tuple((1 + (d % 2), d % 2 + (1 if d == 0 else 2)) for d in range(D))  # asymmetric literal padding
 
 
@@ -119,6 +123,12 @@ def _zero_wrap(c):
     elif pad == "int":
         wrap = ((0, 0),) * D
         zp = ((1, 1),) * D
+    elif pad in ("int0", "int2"):
+        wrap = ((0, 0),) * D
+        zp = ((int(pad[3:]),) * 2,) * D
+    elif pad == "explicit0":
+        wrap = ((0, 0),) * D
+        zp = ((0, 0),) * D
     else:
         wrap = ((0, 0),) * D
         zp = _padding_arg(c)
